@@ -195,6 +195,42 @@ static inline std::string coupons_json(const std::vector<Coupon>& cs) {
   return s + "]";
 }
 
+// PHYSICAL state of a sketch as its own updatable image shows it (tier B, design-model drift): mode, list in array order /
+// set count and lg size, cur-min, numAtCurMin, aux count and pairs, the stored nibble / 6-bit value / byte of one slot, and the
+// whole stored array when `full_array` (small lg_k).  Layout constants are the documented ones (HllUtil.hpp comments).
+static const int PHYS_MAX_LGK = 12;
+static inline std::string phys(const hll_sketch& s, uint32_t addr, bool full_array) {
+  if (s.get_lg_config_k() > PHYS_MAX_LGK) return "{\"m\":-1}";
+  auto u = s.serialize_updatable();
+  int mode = u[7] & 3, tb = (u[7] >> 2) & 3, lgk = u[3];
+  Ev r("x"); r.s = "{\"m\":" + std::to_string(mode);
+  r.i("lg", u[4]);
+  if (mode == 0) {
+    std::vector<Coupon> l;
+    for (size_t p = 8; p + 4 <= u.size(); p += 4) { uint32_t c; memcpy(&c, &u[p], 4); if (!c) break; l.push_back({c & 0x3ffffffu, c >> 26}); }
+    r.i("cnt", u[6]).raw("list", coupons_json(l));
+  } else if (mode == 1) {
+    uint32_t n; memcpy(&n, &u[8], 4); r.i("cnt", n);
+  } else {
+    uint32_t nac, auxn; memcpy(&nac, &u[32], 4); memcpy(&auxn, &u[36], 4);
+    size_t k = (size_t)1 << lgk;
+    auto raw_at = [&](size_t slot) -> int {
+      if (tb == 0) { uint8_t b = u[40 + (slot >> 1)]; return (slot & 1) ? (b >> 4) : (b & 15); }
+      if (tb == 1) { size_t sb = slot * 6, ix = sb >> 3; unsigned two = (unsigned)u[40 + ix] | ((unsigned)u[40 + ix + 1] << 8); return (int)((two >> (sb & 7)) & 63); }
+      return u[40 + slot];
+    };
+    r.i("cm", u[6]).i("nac", nac).i("auxn", auxn).i("raw", raw_at(addr & (k - 1)));
+    if (tb == 0) {
+      std::vector<Coupon> a;
+      for (size_t p = 40 + k / 2; p + 4 <= u.size(); p += 4) { uint32_t c; memcpy(&c, &u[p], 4); if (c) a.push_back({(uint32_t)((c & 0x3ffffffu) & (k - 1)), c >> 26}); }
+      r.raw("aux", coupons_json(a));
+    }
+    if (full_array) { std::vector<int> arr; for (size_t x = 0; x < k; x++) arr.push_back(raw_at(x)); r.il("arr", arr); }
+  }
+  r.s += "}";
+  return r.s;
+}
+
 // estimates / bounds of anything with the estimator API (hll_sketch, hll_union)
 template<class S> static inline void est_fields(Ev& r, const S& s) {
   double est = s.get_estimate(), cest = s.get_composite_estimate();
@@ -220,6 +256,7 @@ static inline std::string proj(int id, const hll_sketch& s) {
     r.raw("nz", z + "]");
   } else if (v.cmode == 2) r.il("regs", v.regs); else r.raw("coup", coupons_json(v.coup));
   est_fields(r, s);
+  r.raw("ph", phys(s, 0, v.lgk <= 8));
   r.s += "}";
   return r.s;
 }
